@@ -42,6 +42,7 @@ struct Opts {
     unwrap_default: bool,
     letanchors: Vec<String>, // local names after whose `let` an `after_let NAME K` anchor is emitted
     fieldty: Vec<(String, String)>, // struct take: replace the type of a field (R4 for `dyn Fn` fields)
+    r28: bool,              // R28: `X.and_then(|p| BODY)` with I/O in BODY -> `match X { Ok(p) => BODY, Err(e) => Err(e) }`
     mac_for: Option<(String, String)>, // macro instantiation: use the invocation whose metavariable .0 equals .1
     anchors: Vec<String>,   // callee names after whose enclosing statement an `after_call NAME K` anchor is emitted
     r3calls: Vec<(String, usize)>, // callee -> number of generics R3 added to it (turbofish call sites get that many `_`)
@@ -74,6 +75,7 @@ fn parse_opts(s: &str) -> Opts {
             "selfty" => o.selfty = Some(v.to_string()),
             "nofmt" => o.nofmt = true,
             "anchors" => o.anchors = list(),
+            "r28" => o.r28 = true,
             "mac_for" => o.mac_for = v.split_once(':').map(|(a, b)| (a.to_string(), b.to_string())),
             "fieldty" => o.fieldty = list().iter().filter_map(|x| x.split_once(':').map(|(a, b)| (a.to_string(), b.to_string()))).collect(),
             "letanchors" => o.letanchors = list(),
@@ -294,6 +296,31 @@ impl VisitMut for Rw {
     }
     fn visit_expr_mut(&mut self, e: &mut Expr) {
         match e {
+            // R15: `if let [_, a, b] = xs { A } else { B }` -> `if xs.len() == 3 { let a = &xs[1]; let b = &xs[2]; A } else { B }`
+            Expr::If(i) if matches!(&*i.cond, Expr::Let(l) if matches!(&*l.pat, syn::Pat::Slice(_))) => {
+                let (pat, scrut) = if let Expr::Let(l) = &*i.cond { ((*l.pat).clone(), (*l.expr).clone()) } else { unreachable!() };
+                if let syn::Pat::Slice(ps) = pat {
+                    let n = ps.elems.len();
+                    let mut lets: Vec<Stmt> = vec![]; let mut ok = true;
+                    for (k, el) in ps.elems.iter().enumerate() {
+                        match el {
+                            syn::Pat::Wild(_) => {}
+                            syn::Pat::Ident(pi) if pi.subpat.is_none() && pi.by_ref.is_none() => { let id = &pi.ident; lets.push(parse_quote!(let #id = &#scrut[#k];)); }
+                            _ => ok = false,
+                        }
+                    }
+                    if ok {
+                        self.bump("R15");
+                        let then_stmts = i.then_branch.stmts.clone();
+                        let els = i.else_branch.as_ref().map(|(_, e)| (**e).clone());
+                        let mut newif: Expr = match els { Some(e2) => parse_quote!(if #scrut.len() == #n { #(#lets)* #(#then_stmts)* } else #e2), None => parse_quote!(if #scrut.len() == #n { #(#lets)* #(#then_stmts)* }) };
+                        visit_mut::visit_expr_mut(self, &mut newif);
+                        *e = newif;
+                        return;
+                    }
+                    self.errors.push("UNSUPPORTED slice pattern (only `_` and plain identifiers, no rest pattern)".into());
+                }
+            }
             // R2: for -> loop + match over a shim iterator
             Expr::ForLoop(fl) => {
                 let n = self.loop_no; self.loop_no += 1; self.bump("R2");
@@ -404,6 +431,23 @@ impl VisitMut for Rw {
                 return;
             }
             _ => {}
+        }
+        // R28: Result::and_then with a closure that performs I/O (definition of and_then)
+        if self.o.r28 {
+            if let Expr::MethodCall(mc) = e {
+                if mc.method == "and_then" && mc.args.len() == 1 {
+                    if let Expr::Closure(c) = &mc.args[0] {
+                        if c.inputs.len() == 1 && c.body.to_token_stream().to_string().contains("fs ::") | c.body.to_token_stream().to_string().contains("read_toml_file") {
+                            let recv = (*mc.receiver).clone(); let pat = c.inputs[0].clone(); let body = (*c.body).clone();
+                            self.bump("R28");
+                            let mut ne: Expr = parse_quote!(match #recv { Ok(#pat) => #body, Err(__e) => Err(__e) });
+                            self.visit_expr_mut(&mut ne);
+                            *e = ne;
+                            return;
+                        }
+                    }
+                }
+            }
         }
         // children first (closure arguments of a method call get that method's name as their label)
         if let Expr::MethodCall(mc) = e {
